@@ -4,6 +4,7 @@ reports filed, numeric facts evaluated on the unrounded floats)."""
 from __future__ import annotations
 
 import json
+import os
 from pathlib import Path
 from typing import Any, Dict, List, Optional, Tuple
 
@@ -279,6 +280,13 @@ class Tracer:
         self.run_id = run_id
         self.step = 0
         self.listeners: List[Any] = []
+        # facts for spec/HiveControl.tla (driver policies, charging fleet manager) go to a sibling file
+        self.policy = None
+        if self.path and os.environ.get("HV_POLICY") == "1":
+            from hv.policy import PolicyLog
+
+            self.policy = PolicyLog(self.path.with_suffix(".policy"))
+            self.listeners.append(self.policy.listen)
 
     # -- output ---------------------------------------------------------------------------
     def write(self, line: Dict[str, Any]) -> None:
@@ -294,6 +302,8 @@ class Tracer:
         if self.f:
             self.f.close()
             self.f = None
+        if self.policy:
+            self.policy.close()
 
     def _reports(self) -> List[Dict[str, Any]]:
         r, self.pending_reports = self.pending_reports, []
@@ -353,6 +363,8 @@ class Tracer:
         self.write({"ev": "drivers", "time": int(after.sim_time), "d": d, "rep": self._reports()})
 
     def on_instruction_stacks(self, stacks, final, generators, sim, env) -> None:
+        if self.policy:
+            self.policy.on_stacks(stacks, generators, sim, env)
         st = [[vid, [project_instruction(i) for i in stacks[vid]]] for vid in sorted(stacks.keys())]
         self.write({
             "ev": "stacks",
